@@ -372,6 +372,11 @@ const identityProbe = `(if type == "array" then del(.[0:0]) elif type == "object
 func genArgs(r *kernel.Rand, d *c16Data) {
 	sc := &d.Scenario
 	sc.Flags = []string{"-c", "-n"}
+	if r.Bool(0.4) {
+		// the input mode is about the inputs: it changes nothing about how --slurpfile, --rawfile,
+		// --argjson or the positional arguments are read
+		sc.Flags = append(sc.Flags, kernel.Pick(r, [][]string{{"--stream"}, {"-R"}, {"-s"}, {"-R", "-s"}, {"--stream", "-s"}})...)
+	}
 	names := []string{"a", "b", "c", "d"}
 	named := map[string]any{}
 	order := []string{}
